@@ -7,24 +7,35 @@
 (*    points, the cache removals the specification requires, the "keep cache  *)
 (*    if correct size" decisions of set_up, errors exactly where required;    *)
 (*  - for process_data (and the direct detector-pair estimates) the hit/miss  *)
-(*    pattern of every activity-cache entry against the model's cache         *)
-(*    content, and every hit entry must be valid;                             *)
+(*    pattern of every activity-cache entry (and of every attenuation-cache   *)
+(*    entry when the library reports them) against the model's cache content, *)
+(*    and every hit entry must be valid;                                      *)
 (*  - the property's clauses on the outputs: same settings => same output     *)
-(*    whatever the history, the cache switch or the object (fresh objects     *)
-(*    are ordinary objects of the same scenario), linear in the activity      *)
-(*    image (relations between the pool images are logged and verified        *)
-(*    here), zero for zero activity, never negative, symmetric under          *)
-(*    exchange of the two detectors.                                          *)
+(*    whatever the history, the cache switch, the object or the route by      *)
+(*    which it was configured (setters, parameter file, the object's own      *)
+(*    parameter_info() parsed again), linear in the activity image (relations *)
+(*    between the pool images are logged and verified here), zero for zero    *)
+(*    activity, never negative, symmetric under exchange of the detectors;    *)
+(*  - BEYOND THE PROPERTY (named sections): the settings the sampled points   *)
+(*    and the derived scatter-point image depend on (threshold, random        *)
+(*    placement, zoom factors, down-sampled images / scanner) and relations   *)
+(*    between the energy-window / Compton functions ("Phys").                 *)
 (* Unexplained lines are collected in `bad' with a class: "new", or the id    *)
-(* of a known finding whose signature (a property of the object's history     *)
-(* tracked below) matches.                                                    *)
+(* of a finding whose signature (a property of the object's history tracked   *)
+(* below) matches.                                                            *)
 EXTENDS Scatter, TraceLib
 VARIABLES l, cfg, objs, ids, memo, bad, cnt
 
 NoCfg == [id |-> 0]
-NoIds == [tm |-> 0, en |-> 0, act |-> 0, att |-> 0, spk |-> << 0, 0 >>, zoom |-> 0, effE |-> 0, autoT |-> 0, lastOut |-> FALSE]
+\* content ids: act/att (+ template under which downsample_images_to_scanner_size zoomed them), template
+\* (+ downsample_scanner arguments), energy window, scatter-point source, zoom / threshold settings,
+\* random placement (setting, and whether the current points were placed randomly)
+NoIds == [tm |-> 0, tmDs |-> << 0, 0 >>, en |-> 0, act |-> 0, actDs |-> 0, att |-> 0, attDs |-> 0, spk |-> << 0, 0 >>, zoom |-> 0,
+          thr |-> 1, rnd |-> FALSE, ptsRnd |-> FALSE, effE |-> 0, autoT |-> 0, lastOut |-> FALSE, info |-> ""]
 ZeroCnt == [fresh |-> 0, same |-> 0, cache |-> 0, add |-> 0, scale |-> 0, zero |-> 0, sym |-> 0, errCompute |-> 0,
-            errSetUp |-> 0, keep |-> 0, symOut |-> 0, hit |-> 0, off |-> 0, compute |-> 0, stale |-> 0]
+            errSetUp |-> 0, keep |-> 0, symOut |-> 0, hit |-> 0, off |-> 0, compute |-> 0, stale |-> 0,
+            thr |-> 0, rnd |-> 0, zoomSet |-> 0, dsScanner |-> 0, dsImages |-> 0, parse |-> 0, roundTrip |-> 0, phys |-> 0,
+            rndCompute |-> 0, attGets |-> 0, rederive |-> 0]
 
 (* ------------------------------ events -------------------------------- *)
 RmKinds(r) == { r.ev[j][2] : j \in { i \in 1..Len(r.ev) : r.ev[i][1] = 1 } }
@@ -42,58 +53,83 @@ Needed(s, req) == { k \in req : (k = 1 /\ s.actC # NoCache) \/ (k = 0 /\ s.attC 
 SetterOK(r, s, s2, req, resample) ==
   /\ ~r.err /\ Flags(r, s2) /\ Needed(s, req) \subseteq RmKinds(r) /\ Len(Inits(r)) = 0
   /\ IF resample THEN SampledOnce(r) ELSE Len(Samples(r)) = 0 /\ r.np = s2.np
+\* (beyond the property) a setter of something the POINTS depend on may sample them again at once
+\* (then both caches go) or leave that to set_up
+MaySample(r, s, t) == IF Len(Samples(r)) = 0 THEN t ELSE ResampleOp(t, r.np)
+MaySampleOK(r, s, s2) ==
+  /\ ~r.err /\ Flags(r, s2) /\ Len(Inits(r)) = 0 /\ r.np = s2.np
+  /\ IF Len(Samples(r)) = 0 THEN TRUE ELSE SampledOnce(r) /\ s.spImg # 0 /\ Needed(s, {0, 1}) \subseteq RmKinds(r)
+\* a derived scatter-point image may be dropped by a setter of something it depends on (set_up derives it again)
+Drops(r, s) == s.spImg # 0 /\ s.spFrom # Given /\ ~r.hasSp
+MayDrop(r, s, t) == IF Drops(r, s) THEN DropDerivedOp(t) ELSE t
 
-(* --------------------- known findings (signatures) --------------------- *)
-\* C16-effstale: the efficiency for unscattered photons is memoised at the first computation after
-\* a template was set and survives set_exam_info + set_up: a computation is affected iff the energy
-\* window differs from the one of that first computation.
+(* ------------------------- findings (signatures) ------------------------ *)
+GeoOf(i) == IF i.tmDs = << 0, 0 >> THEN cfg.geo[i.tm] ELSE 1000 + 100 * i.tmDs[1] + i.tmDs[2]
+\* C16-effstale (repaired by ff10b4636): efficiency for unscattered photons memoised at the first
+\* computation after a template was set and surviving set_exam_info + set_up.
 TaintE(i) == i.effE # 0 /\ i.effE # i.en
 \* C16-zoomlatch: with automatic down-sampling settings the factors derived for the first template
 \* are kept (and the derived image is not re-derived) when the template changes.
-TaintZ(i) == i.zoom = 0 /\ i.spk[1] = 2 /\ i.autoT # 0 /\ cfg.geo[i.autoT] # cfg.geo[i.tm]
-\* (C16-effstale is repaired in /repo by ff10b4636, C16-zoomlatch is still open: a history that carries both signatures
-\* is attributed to the open one -- found when the thorough tier met such a history after the repair)
-TaintOf(i) == IF TaintZ(i) THEN "C16-zoomlatch" ELSE IF TaintE(i) THEN "C16-effstale" ELSE "clean"
+TaintZ(i) == i.zoom = 0 /\ i.spk[1] = 2 /\ i.autoT # 0 /\ cfg.geo[i.autoT] # GeoOf(i)
+\* C16-derivedstale: the scatter-point image that set_up derived is out of date (set_image_downsample_factors
+\* or downsample_images_to_scanner_size after the derivation) and set_up did not derive it again.
+\* C16-thrstale: the points were sampled with another threshold / placement setting and not sampled again.
+\* Both are read off the model state, which follows what the implementation was observed to do.
+\* (C16-effstale is repaired in /repo, the others are open: a history that carries several signatures is attributed
+\* to an open one -- found when the thorough tier met such a history after the repair)
+TaintOf(i, s) == IF TaintZ(i) THEN "C16-zoomlatch"
+                 ELSE IF SpStale(s) THEN (IF s.spFrom[3] # SpNow(s)[3] THEN "C16-zoomlatch" ELSE "C16-derivedstale")
+                 ELSE IF PtsStale(s) THEN "C16-thrstale"
+                 ELSE IF TaintE(i) THEN "C16-effstale" ELSE "clean"
 
 (* ------------------------------ outputs -------------------------------- *)
-Key(i) == << i.act, i.att, i.spk[1], i.spk[2], i.tm, i.en >>
-WithAct(k, a) == << a, k[2], k[3], k[4], k[5], k[6] >>
+Key(i) == << i.act, i.actDs, i.att, i.attDs, i.spk[1], IF i.spk[1] = 2 THEN i.zoom ELSE i.spk[2], i.tm, i.tmDs, i.en, i.thr, i.rnd >>
+WithAct(k, a) == [k EXCEPT ![1] = a]
 VecEq(a, b) == Len(a) = Len(b) /\ \A i \in 1..Len(a) : EqOK(a[i], b[i])
 VecLin(t, a, b, ca, cb) == Len(t) = Len(a) /\ Len(t) = Len(b) /\ \A i \in 1..Len(t) : LinOK(t[i], a[i], b[i], ca, cb)
 NonNeg(v) == \A i \in 1..Len(v) : v[i] >= 0
 OutAt(n) == TraceLog[n].out
 
-\* hit/miss pattern of one activity-cache entry: code = misses(0,1,2+) + 4*hit + 8*cache-off + 16*miss-after-hit
-EntryOK(c, s, i) ==
+\* hit/miss pattern of one cache entry: code = misses(0,1,2+) + 4*hit + 8*cache-off + 16*miss-after-hit
+EntryOK(c, uc, held, now) ==
   IF c = 0 THEN TRUE
-  ELSE IF ~s.useCache THEN c = 8
+  ELSE IF ~uc THEN c = 8
   ELSE /\ (c \div 8) % 2 = 0 /\ (c \div 16) % 2 = 0
-       /\ IF s.actC.ent[i] = Empty THEN c % 4 = 1                      \* computed once, then served from the cache
-          ELSE c % 4 = 0 /\ s.actC.ent[i] = ActNow(s)                  \* served from the cache: must be valid
+       /\ IF held = Empty THEN c % 4 = 1                      \* computed once, then served from the cache
+          ELSE c % 4 = 0 /\ held = now                        \* served from the cache: must be valid
+AttReported(r) == r.gaSeen > 0
 GetsOK(r, s) == /\ Usable(s) /\ Len(r.g) = s.np * s.nd /\ r.gOutside = 0 /\ r.gOther = 0
-                /\ \A i \in 1..Len(r.g) : EntryOK(r.g[i], s, i)
+                /\ \A i \in 1..Len(r.g) : EntryOK(r.g[i], s.useCache, IF s.useCache THEN s.actC.ent[i] ELSE Empty, ActNow(s))
+                /\ (AttReported(r) => /\ Len(r.ga) = s.np * s.nd
+                                      /\ \A i \in 1..Len(r.ga) : EntryOK(r.ga[i], s.useCache, IF s.useCache THEN s.attC.ent[i] ELSE Empty, AttNow(s)))
 Touched(r) == { i \in 1..Len(r.g) : r.g[i] # 0 }
+\* without a read hook for the attenuation cache every entry is assumed filled by a computation
+TouchedAtt(r, s) == IF AttReported(r) THEN { i \in 1..Len(r.ga) : r.ga[i] # 0 } ELSE Entries(s)
 
 (* ------------------------------ one line -------------------------------- *)
 \* result: [ok, cls, s (object state), i (object ids), memo, cnt]
 Res(ok, cls, s, i, m, c) == [ok |-> ok, cls |-> IF ok THEN "ok" ELSE cls, s |-> s, i |-> i, memo |-> m, cnt |-> c]
 Plain(ok, s, i) == Res(ok, "new", s, i, memo, cnt)
+Count(ok, s, i, c) == Res(ok, "new", s, i, memo, c)
 
 ComputeLine(r, s, i, n) ==
   IF ComputeErr(s)
   THEN Res(r.err /\ Flags(r, s) /\ ~Has(r, "out"), "new", s, i, memo, [cnt EXCEPT !.errCompute = @ + 1])
   ELSE
-    LET s2 == ComputeOp(s, Touched(r), Entries(s))
+    LET s2 == ComputeOp(s, Touched(r), TouchedAtt(r, s))
         i2 == [i EXCEPT !.effE = IF @ = 0 THEN i.en ELSE @, !.lastOut = TRUE]
-        taint == TaintOf(i2)
+        taint == TaintOf(i2, s)
         k == Key(i)
         basic == /\ ~r.err /\ r.ok /\ Flags(r, s) /\ r.ndp = s.nd /\ r.np = s.np /\ Len(r.ev) = 0
                  /\ Has(r, "out") /\ r.nf = 0 /\ NonNeg(r.out) /\ GetsOK(r, s)
         c1 == [cnt EXCEPT !.compute = @ + 1,
                           !.hit = @ + (IF \E x \in 1..Len(r.g) : r.g[x] = 4 THEN 1 ELSE 0),
-                          !.off = @ + (IF s.useCache THEN 0 ELSE 1)]
+                          !.off = @ + (IF s.useCache THEN 0 ELSE 1),
+                          !.attGets = @ + (IF AttReported(r) THEN 1 ELSE 0)]
     IN
     IF ~basic THEN Res(FALSE, "new", s2, i2, memo, c1)
+    \* randomly placed points are seeded by the clock: the output is not a function of the settings
+    ELSE IF i.ptsRnd THEN Res(~r.fresh, "new", s2, i2, memo, [c1 EXCEPT !.rndCompute = @ + 1])
     ELSE IF k \in DOMAIN memo
     THEN \* same settings seen before (any object, any history, any cache flag): same output
       LET e == memo[k]
@@ -121,7 +157,7 @@ ComputeLine(r, s, i, n) ==
 
 \* r.m = E(A,B) for every bin, then E(B,A) for every bin, then the bin's value in the output data
 PairsLine(r, s, i) ==
-  LET s2 == ComputeOp(s, Touched(r), Entries(s))
+  LET s2 == ComputeOp(s, Touched(r), TouchedAtt(r, s))
       i2 == [i EXCEPT !.effE = IF @ = 0 THEN i.en ELSE @]
       n == r.n IN
   Res(/\ s.asu /\ ~r.err /\ Flags(r, s) /\ r.ndp = s.nd /\ Len(r.ev) = 0 /\ GetsOK(r, s)
@@ -135,51 +171,120 @@ PairsLine(r, s, i) ==
            /\ (i.lastOut => EqOK(r.m[b], r.m[2 * n + b])),
       "new", s2, i2, memo, [cnt EXCEPT !.sym = @ + 1, !.symOut = @ + (IF i.lastOut THEN 1 ELSE 0)])
 
+\* set_up.  Required: an error iff an input is missing; the image is derived if there is none.
+\* (beyond the property) Specified as well: a derived image that is out of date is derived again and
+\* points sampled with other settings are sampled again.  The model follows what was observed
+\* (r.spNew: the object holds another scatter-point image than before the call); an omitted
+\* re-derivation / re-sampling leaves the model state stale, which classifies the next Compute.
 SetUpLine(r, s, i) ==
   IF SetUpErr(s)
   THEN Res(r.err /\ Flags(r, s) /\ Len(r.ev) = 0 /\ r.np = s.np, "new", s, i, memo, [cnt EXCEPT !.errSetUp = @ + 1])
   ELSE
     \* the model follows the removals observed (they all precede the allocation decisions)
     LET s0 == ApplyRm(s, r)
-        s1 == IF Derives(s) THEN NewPointsOp(s0, r.np) ELSE s0
-        s2 == SetUpOp(s0, r.np)
+        derived == r.spNew
+        sampled == Len(Samples(r)) > 0
+        s1 == IF derived THEN DeriveOp(s0, r.np) ELSE IF sampled THEN ResampleOp(s0, r.np) ELSE s0
+        s2 == FinishSetUp(s1)
         rmBeforeInit == \A x, y \in 1..Len(r.ev) : (r.ev[x][1] = 2 /\ r.ev[y][1] = 1) => y < x
         ins == Inits(r)
-        initOK(e, c) == e[3] = (IF Keeps(c, s1.np, s1.nd) THEN 1 ELSE 0) /\ e[4] = s1.np /\ e[5] = s1.nd
-        i2 == [i EXCEPT !.spk = IF Derives(s) THEN << 2, i.zoom >> ELSE @,
-                        !.autoT = IF Derives(s) /\ i.zoom = 0 /\ @ = 0 THEN i.tm ELSE @]
+        \* (with no scatter point at all the arrays are empty either way: the keep decision is immaterial)
+        initOK(e, c) == (s1.np * s1.nd > 0 => e[3] = (IF Keeps(c, s1.np, s1.nd) THEN 1 ELSE 0)) /\ e[4] = s1.np /\ e[5] = s1.nd
+        i2 == [i EXCEPT !.spk = IF derived THEN << 2, i.zoom >> ELSE @,
+                        !.autoT = IF derived /\ i.zoom = 0 /\ @ = 0 THEN i.tm ELSE @,
+                        !.ptsRnd = IF sampled THEN i.rnd ELSE @]
     IN Res(/\ ~r.err /\ r.ok /\ Flags(r, s2) /\ r.hasSp /\ r.np = s2.np
            /\ rmBeforeInit
-           /\ IF Derives(s) THEN SampledOnce(r) /\ Needed(s, {0, 1}) \subseteq RmKinds(r) ELSE Len(Samples(r)) = 0
+           /\ (Derives(s) => derived) /\ (derived => MustDerive(s))
+           /\ (derived => sampled)
+           /\ (sampled => SampledOnce(r) /\ Needed(s, {0, 1}) \subseteq RmKinds(r))
+           /\ (sampled /\ ~derived => PtsStale(s0))
            /\ IF s.useCache
               THEN /\ Len(ins) = 2 /\ { ins[1][2], ins[2][2] } = {0, 1}
                    /\ \A x \in 1..2 : initOK(ins[x], IF ins[x][2] = 1 THEN s1.actC ELSE s1.attC)
               ELSE Len(ins) = 0,
            "new", s2, i2, memo,
-           [cnt EXCEPT !.keep = @ + (IF s.useCache /\ Keeps(s1.actC, s1.np, s1.nd) THEN 1 ELSE 0)])
+           [cnt EXCEPT !.keep = @ + (IF s.useCache /\ Keeps(s1.actC, s1.np, s1.nd) THEN 1 ELSE 0),
+                       !.rederive = @ + (IF derived /\ ~Derives(s) THEN 1 ELSE 0)])
+
+\* An object configured from a parameter file: the constructor parses the keys and post_processing
+\* calls the file-name setters in the order template (+ exam info), activity, attenuation,
+\* scatter-point image.  r.rt # 0: the file was the parameter_info() of object r.rt.
+ParseLine(r) ==
+  LET s1 == [InitObj EXCEPT !.useCache = r.ucArg, !.zoomAuto = (r.zoom = 0)]
+      s2 == SetEnergyOp(SetTmplOp(s1, cfg.dets[r.tm], cfg.geo[r.tm]))
+      s3 == SetAttOp(SetActOp(s2))
+      s4 == IF r.sp # 0 THEN SetSpOp(s3, r.np) ELSE s3
+      i2 == [NoIds EXCEPT !.tm = r.tm, !.en = r.en, !.act = r.act, !.att = r.att, !.spk = IF r.sp # 0 THEN << 1, r.sp >> ELSE << 0, 0 >>,
+                          !.zoom = r.zoom, !.thr = r.thr, !.info = r.info]
+  IN Count(/\ ~r.err /\ Flags(r, s4) /\ r.np = s4.np /\ r.hasSp = (r.sp # 0) /\ Len(Inits(r)) = 0
+           /\ Len(Samples(r)) = (IF r.sp # 0 THEN 1 ELSE 0)
+           /\ r.tm \in 1..Len(cfg.dets) /\ r.en \in 1..Len(cfg.win) /\ r.act \in 1..cfg.nAct /\ r.att \in 1..cfg.nAtt
+           \* KeyParser round trip: the parameter_info() of an object parsed from another object's parameter_info() is the same text
+           /\ (r.rt # 0 => r.rt \in DOMAIN ids /\ ids[r.rt].info = r.info),
+           s4, i2, [cnt EXCEPT !.parse = @ + 1, !.roundTrip = @ + (IF r.rt # 0 THEN 1 ELSE 0)])
+
+(* BEYOND THE PROPERTY: relations between observations of the detection / Compton model.            *)
+(* win = <<a,b>>, <<b,c>>, <<a,c>>, <<b,a>>, <<-5000,5000>>, <<c,c+100>>; eff[w][e] in 2^-22 units.      *)
+PhysOK(r) ==
+  LET E == 1..Len(r.energies)
+      one == 4194304
+      tol == 4
+      C == 1..Len(r.cos8) IN
+  /\ Len(r.eff) = 6 /\ \A w \in 1..6 : Len(r.eff[w]) = Len(r.energies)
+  /\ \A e \in E :
+       \* the efficiency is the integral of one Gaussian over the window: additive over adjacent windows,
+       /\ Abs(r.eff[3][e] - (r.eff[1][e] + r.eff[2][e])) <= tol
+       \* changes sign when the bounds are exchanged, grows with the window, lies in [0,1],
+       /\ Abs(r.eff[4][e] + r.eff[1][e]) <= 1
+       /\ r.eff[3][e] >= r.eff[1][e] - tol /\ r.eff[3][e] >= r.eff[2][e] - tol
+       /\ \A w \in {1, 2, 3, 5, 6} : r.eff[w][e] >= 0 /\ r.eff[w][e] <= one + 1
+       \* and is 1 for a window that contains everything
+       /\ Abs(r.eff[5][e] - one) <= tol
+  \* a window entirely above the photon energies: efficiency decreases with the distance to it
+  /\ \A e \in E : e > 1 => r.eff[6][e] >= r.eff[6][e - 1]
+  \* energy after Compton scatter: the 511 keV form equals the general form, grows with cos(theta),
+  \* 511 keV for forward scatter and 511/3 for back-scatter
+  /\ Len(r.e511) = Len(r.cos8) /\ Len(r.eGen) = Len(r.cos8) /\ Len(r.dif) = Len(r.cos8)
+  /\ \A c \in C : /\ Abs(r.e511[c] - r.eGen[c]) <= 2 + r.e511[c] \div 1048576
+                  /\ (c > 1 => r.e511[c] > r.e511[c - 1])
+                  /\ r.dif[c] > 0
+  /\ r.cos8[1] = -8 /\ r.cos8[Len(r.cos8)] = 8
+  /\ Abs(r.e511[Len(r.cos8)] - 511 * 65536) <= 2 /\ Abs(3 * r.e511[1] - 511 * 65536) <= 8
+  \* forward scatter is the most likely
+  /\ \A c \in C : r.dif[c] <= r.dif[Len(r.cos8)]
+  \* total cross section: decreases with energy; the "relative to 511 keV" form is the ratio of the absolute form
+  /\ Len(r.tot) = Len(r.energies) /\ Len(r.rel) = Len(r.energies) /\ r.energies[Len(r.energies)] = 511
+  /\ \A e \in E : /\ (e > 1 => r.tot[e] < r.tot[e - 1] /\ r.rel[e] < r.rel[e - 1])
+                  /\ Abs(r.tot[e] * r.rel[Len(r.rel)] - r.rel[e] * r.tot[Len(r.tot)])
+                       <= r.tot[e] + r.rel[e] + r.tot[Len(r.tot)] + r.rel[Len(r.rel)]
+  /\ r.relK \in 0..14 /\ Abs(r.rel[Len(r.rel)] - 2 ^ r.relK) <= 1 + 2 ^ r.relK \div 4096        \* rel(511) = 1
 
 Line(r, n) ==
   IF r.e = "Abort" \/ ~Has(r, "o") THEN Plain(FALSE, InitObj, NoIds)
   ELSE IF r.e = "New" THEN Plain(~r.err /\ Flags(r, InitObj) /\ r.np = 0 /\ Len(Inits(r)) = 0 /\ Len(Samples(r)) = 0
                                  /\ r.zoom \in 0..cfg.nZoom /\ (r.zoom = 0 <=> cfg.autoZoom),
-                                 InitObj, [NoIds EXCEPT !.zoom = r.zoom])
+                                 [InitObj EXCEPT !.zoomAuto = (r.zoom = 0)], [NoIds EXCEPT !.zoom = r.zoom])
+  ELSE IF r.e = "Parse" THEN (IF Has(r, "info") THEN ParseLine(r) ELSE Plain(FALSE, InitObj, NoIds))
+  ELSE IF r.e = "Phys" THEN Count(PhysOK(r), InitObj, NoIds, [cnt EXCEPT !.phys = @ + 1])
   ELSE IF r.o \notin DOMAIN objs THEN Plain(FALSE, InitObj, NoIds)
   ELSE
     LET s == objs[r.o]
         i == ids[r.o] IN
     CASE r.e = "SetAct" ->
            LET s2 == ApplyRm(SetActOp(s), r) IN
-           Plain(SetterOK(r, s, s2, {1}, FALSE) /\ r.id \in 1..cfg.nAct, s2, [i EXCEPT !.act = r.id])
+           Plain(SetterOK(r, s, s2, {1}, FALSE) /\ r.id \in 1..cfg.nAct, s2, [i EXCEPT !.act = r.id, !.actDs = 0])
       [] r.e = "SetAtt" ->
            LET s2 == ApplyRm(SetAttOp(s), r) IN
-           Plain(SetterOK(r, s, s2, {0}, FALSE) /\ ~r.hasSp /\ r.id \in 1..cfg.nAtt, s2, [i EXCEPT !.att = r.id, !.spk = << 0, 0 >>])
+           Plain(SetterOK(r, s, s2, {0}, FALSE) /\ ~r.hasSp /\ r.id \in 1..cfg.nAtt, s2, [i EXCEPT !.att = r.id, !.attDs = 0, !.spk = << 0, 0 >>])
       [] r.e = "SetSp" ->
            LET s2 == ApplyRm(SetSpOp(s, r.np), r) IN
-           Plain(SetterOK(r, s, s2, {0, 1}, TRUE) /\ r.hasSp /\ r.id \in 1..cfg.nSp, s2, [i EXCEPT !.spk = << 1, r.id >>])
+           Plain(SetterOK(r, s, s2, {0, 1}, TRUE) /\ r.hasSp /\ r.id \in 1..cfg.nSp, s2, [i EXCEPT !.spk = << 1, r.id >>, !.ptsRnd = i.rnd])
       [] r.e = "Downsample" ->
            IF DownsampleErr(s) THEN Plain(r.err /\ Flags(r, s) /\ r.np = s.np /\ Len(Samples(r)) = 0, s, i)
            ELSE LET s2 == ApplyRm(DownsampleOp(s, r.np), r) IN
-                Plain(SetterOK(r, s, s2, {0, 1}, TRUE) /\ r.hasSp /\ r.zoom \in 1..cfg.nZoom, s2, [i EXCEPT !.spk = << 2, r.zoom >>, !.zoom = r.zoom])
+                Plain(SetterOK(r, s, s2, {0, 1}, TRUE) /\ r.hasSp /\ r.zoom \in 1..cfg.nZoom, s2,
+                      [i EXCEPT !.spk = << 2, r.zoom >>, !.zoom = r.zoom, !.ptsRnd = i.rnd])
       [] r.e = "SetTmpl" ->
            \* A scatter-point image derived with automatic (template-dependent) settings belongs to the
            \* old template.  Dropping it here (it is derived again by set_up) is the specified behaviour;
@@ -189,7 +294,7 @@ Line(r, n) ==
                t2 == SetTmplOp(s, cfg.dets[r.id], cfg.geo[r.id])
                s2 == ApplyRm(IF drop THEN DropDerivedOp(t2) ELSE t2, r) IN
            Plain(r.id \in 1..Len(cfg.dets) /\ SetterOK(r, s, s2, {0, 1}, FALSE) /\ r.ndp = 0 /\ (r.hasSp = (s2.spImg # 0)),
-                 s2, [i EXCEPT !.tm = r.id, !.effE = 0, !.spk = IF drop THEN << 0, 0 >> ELSE @])
+                 s2, [i EXCEPT !.tm = r.id, !.tmDs = << 0, 0 >>, !.effE = 0, !.spk = IF drop THEN << 0, 0 >> ELSE @])
       [] r.e = "SetEnergy" ->
            LET s2 == ApplyRm(SetEnergyOp(s), r) IN
            Plain(SetterOK(r, s, s2, {}, FALSE) /\ r.id \in 1..Len(cfg.win), s2, [i EXCEPT !.en = r.id])
@@ -197,6 +302,33 @@ Line(r, n) ==
            LET s2 == ApplyRm(SetCacheOp(s, r.b), r) IN
            Plain(SetterOK(r, s, s2, IF r.b = s.useCache THEN {} ELSE {0, 1}, FALSE), s2, i)
       [] r.e = "SetOut" -> Plain(~r.err /\ s.tmpl > 0 /\ r.id = i.tm /\ Flags(r, s) /\ Len(r.ev) = 0, SetOutOp(s), i)
+      (* ------------- beyond the property's list of settings ------------- *)
+      [] r.e = "SetThr" ->
+           LET s2 == ApplyRm(MaySample(r, s, SetThrOp(s)), r) IN
+           Count(MaySampleOK(r, s, s2) /\ r.id \in 1..cfg.nThr, s2, [i EXCEPT !.thr = r.id, !.ptsRnd = IF Len(Samples(r)) > 0 THEN i.rnd ELSE @],
+                 [cnt EXCEPT !.thr = @ + 1])
+      [] r.e = "SetRnd" ->
+           LET s2 == ApplyRm(MaySample(r, s, SetRndOp(s, r.b)), r) IN
+           Count(MaySampleOK(r, s, s2), s2, [i EXCEPT !.rnd = r.b, !.ptsRnd = IF Len(Samples(r)) > 0 THEN r.b ELSE @], [cnt EXCEPT !.rnd = @ + 1])
+      [] r.e = "SetZoom" ->
+           LET s2 == ApplyRm(MayDrop(r, s, SetZoomOp(s)), r) IN
+           Count(SetterOK(r, s, s2, {}, FALSE) /\ (r.hasSp = (s2.spImg # 0)) /\ r.zoom \in 1..cfg.nZoom, s2,
+                 [i EXCEPT !.zoom = r.zoom, !.spk = IF Drops(r, s) THEN << 0, 0 >> ELSE @], [cnt EXCEPT !.zoomSet = @ + 1])
+      [] r.e = "DsScanner" ->
+           \* downsample_scanner(rings, detectors): the template is replaced by a coarser one with exactly
+           \* that many rings and detectors, and output data for it are installed
+           LET s2 == ApplyRm(DownsampleScannerOp(s, r.dr * r.dd, 1000 + 100 * r.dr + r.dd), r) IN
+           Count(/\ s.tmpl > 0 /\ r.ok /\ SetterOK(r, s, s2, {0, 1}, FALSE) /\ r.ndp = 0 /\ (r.hasSp = (s.spImg # 0))
+                 /\ r.newN = r.dd /\ r.newR = r.dr /\ r.outInMemory /\ r.newTang <= r.newN,
+                 s2, [i EXCEPT !.tmDs = << r.dr, r.dd >>, !.effE = 0], [cnt EXCEPT !.dsScanner = @ + 1])
+      [] r.e = "DsImages" ->
+           IF DownsampleImagesErr(s) THEN Plain(~r.err /\ ~r.ok /\ Flags(r, s) /\ Len(r.ev) = 0, s, i)
+           ELSE LET s2 == ApplyRm(MayDrop(r, s, DownsampleImagesOp(s)), r) IN
+                Count(r.ok /\ SetterOK(r, s, s2, (IF s.act # 0 THEN {1} ELSE {}) \cup (IF s.att # 0 THEN {0} ELSE {}), FALSE)
+                      /\ (r.hasSp = (s2.spImg # 0)),
+                      s2, [i EXCEPT !.actDs = IF i.act # 0 THEN i.tm ELSE @, !.attDs = IF i.att # 0 THEN i.tm ELSE @,
+                                    !.spk = IF Drops(r, s) THEN << 0, 0 >> ELSE @],
+                      [cnt EXCEPT !.dsImages = @ + 1])
       [] r.e = "SetUp" -> SetUpLine(r, s, i)
       [] r.e = "Compute" -> ComputeLine(r, s, i, n)
       [] r.e = "Pairs" -> PairsLine(r, s, i)
@@ -228,7 +360,7 @@ Next ==
             /\ cfg' = cfg
             /\ bad' = IF res.ok THEN bad ELSE AddBad(res.cls)
             /\ memo' = res.memo /\ cnt' = res.cnt
-            /\ IF ~Has(r, "o") THEN UNCHANGED << objs, ids >>
+            /\ IF ~Has(r, "o") \/ r.e = "Phys" THEN UNCHANGED << objs, ids >>
                ELSE IF r.e = "Delete"
                THEN /\ objs' = [o \in DOMAIN objs \ {r.o} |-> objs[o]]
                     /\ ids' = [o \in DOMAIN ids \ {r.o} |-> ids[o]]
